@@ -643,5 +643,55 @@ func c14(r *mon.Run) {
 			}
 			t.Nontrivial("long:" + strconv.Itoa(i))
 		}}
-	r.Exec(quoted, raw, lit, numw, ident, wsw, pairs, after, longw)
+	// literals that are deep, and literals that only look deep (brackets and braces inside strings and member names): a literal is
+	// the JSON value its text spells, at any depth the text has
+	deepD := []int{1, 2, 16, 63, 64, 65, 100, 126, 127, 128, 129, 130, 200, 255, 256, 257, 500, 1000, 2000}
+	deepw := mon.Workload{Name: "deep-literals-and-literals-that-only-look-deep", N: len(deepD) * 8, Batch: 20,
+		Do: func(i int, t *mon.Tally) {
+			d, shape := deepD[i/8], i%8
+			var text string
+			var want interface{}
+			switch shape {
+			case 0:
+				text, want = strings.Repeat("[", d)+"1"+strings.Repeat("]", d), float64(1)
+				for k := 0; k < d; k++ {
+					want = []interface{}{want}
+				}
+			case 1:
+				text, want = strings.Repeat(`{"a":`, d)+`"x"`+strings.Repeat("}", d), "x"
+				for k := 0; k < d; k++ {
+					want = map[string]interface{}{"a": want}
+				}
+			case 2:
+				text, want = strings.Repeat(`[{"k":`, d/2+1)+"null"+strings.Repeat("}]", d/2+1), nil
+				for k := 0; k < d/2+1; k++ {
+					want = []interface{}{map[string]interface{}{"k": want}}
+				}
+			case 3:
+				sv := strings.Repeat("[", d)
+				text, want = `"`+sv+`"`, sv
+			case 4:
+				sv := strings.Repeat("{[", d) + "]"
+				text, want = `["`+sv+`", "`+strings.Repeat("}", d)+`"]`, []interface{}{sv, strings.Repeat("}", d)}
+			case 5:
+				key := strings.Repeat("[{(", d)
+				text, want = `{"`+key+`": [1]}`, map[string]interface{}{key: []interface{}{float64(1)}}
+			case 6:
+				sv := strings.Repeat("]", d) + strings.Repeat("[", d)
+				text, want = `[["`+sv+`"]]`, []interface{}{[]interface{}{sv}}
+			default:
+				sv := strings.Repeat(`\"[`, d)
+				text, want = `"`+sv+`"`, strings.Repeat(`"[`, d)
+			}
+			lex := gen.LiteralLexeme(text)
+			for k, o := range []mon.Observed{apiSearch(lex, nil), apiCompiledSearch("["+lex+"][0]", map[string]interface{}{})} {
+				t.Eval()
+				if o.Panicked || o.Err != nil || !ref.Match(want, o.V) {
+					r.Violate(&mon.Violation{Workload: "deep-literals-and-literals-that-only-look-deep", Index: i, API: []string{"Search", "Compile+Search"}[k], Expr: brief(lex), Expected: "the JSON value the text spells (shape " + strconv.Itoa(shape) + ", depth or length " + strconv.Itoa(d) + ")", Observed: brief(o.String()), Class: "deep literal"})
+					return
+				}
+			}
+			t.Nontrivial("deep:" + strconv.Itoa(i))
+		}}
+	r.Exec(quoted, raw, lit, numw, ident, wsw, pairs, after, longw, deepw)
 }
